@@ -158,6 +158,8 @@ class Definitions:
         }
 
     def _client_session(self):
+        if self.version == '4.2':
+            return 'Fix42Session'
         if self.version == '4.4':
             return 'Fix44Session'
         if self.version in ('5.0', '5.0SP2'):
